@@ -376,7 +376,9 @@ pub(crate) fn simplify_concat(args: Vec<Expr>) -> Result<ExprSimplifyResult> {
         }
     }
 
-    if !contiguous_scalar.is_empty() {
+    // Keep at least one argument: `concat(NULL)` is the empty string, while `concat()`
+    // does not plan
+    if !contiguous_scalar.is_empty() || new_args.is_empty() {
         match return_type {
             DataType::Utf8 => new_args.push(lit(contiguous_scalar)),
             DataType::LargeUtf8 => {
